@@ -7,5 +7,7 @@ let () =
   (match mode with
    | "kernel" -> Kdriver.run v ic oc
    | "sim" -> Sdriver.run v ic oc
+   | "parse" -> Pdriver.run v ic oc
+   | "pcap" -> Cdriver.run v ic oc
    | _ -> failwith ("unknown mode " ^ mode));
   close_out oc
